@@ -109,7 +109,7 @@ macro_rules! c14_depth2_body {
     }};
 }
 
-// @unit class=bounded tier=thorough mem=heavy bound="depth=2 complete tree, 2 features, f32, off the thresholds" timeout=1800 fns=linfa_trees::decision_trees::algorithm::make_prediction
+// @unit class=bounded tier=quick mem=heavy bound="depth=2 complete tree, 2 features, f32, off the thresholds" timeout=900 fns=linfa_trees::decision_trees::algorithm::make_prediction
 #[kani::proof]
 #[kani::unwind(5)]
 #[kani::stub(alloc::fmt::format, fmt_stub)]
@@ -121,7 +121,7 @@ fn c14_predict_depth2_f32() {
     kani::cover!(leaf == 3 && lab[3] != lab[2]);
 }
 
-// @unit class=bounded tier=thorough mem=heavy bound="depth=2 complete tree, 2 features, f32, on a threshold" timeout=1800 fns=linfa_trees::decision_trees::algorithm::make_prediction
+// @unit class=bounded tier=quick mem=heavy bound="depth=2 complete tree, 2 features, f32, on a threshold" timeout=900 fns=linfa_trees::decision_trees::algorithm::make_prediction
 #[kani::proof]
 #[kani::unwind(5)]
 #[kani::stub(alloc::fmt::format, fmt_stub)]
@@ -131,8 +131,30 @@ fn c14_predict_tie_depth2_f32() {
     kani::cover!(x[fs[0]] > ss[0] && x[fs[2]] == ss[2] && leaf == 2 && lab[2] != lab[3]);
 }
 
+// unbalanced shape: the left child of the root is a leaf, the right child splits again
+// @unit class=bounded tier=thorough mem=heavy bound="depth=2 unbalanced tree (leaf | split), 2 features, f32, any finite row incl. ties" timeout=900 fns=linfa_trees::decision_trees::algorithm::make_prediction
+#[kani::proof]
+#[kani::unwind(5)]
+#[kani::stub(alloc::fmt::format, fmt_stub)]
+fn c14_predict_unbalanced_f32() {
+    let fs = [c14_feat(), c14_feat()];
+    let ss: [f32; 2] = kani::any();
+    let x: [f32; 2] = kani::any();
+    let lab: [usize; 3] = kani::any();
+    let own: [usize; 2] = kani::any();
+    kani::assume(ss[0].is_finite() && ss[1].is_finite() && x[0].is_finite() && x[1].is_finite());
+    let right = c14_node::<f32>(fs[1], ss[1], c14_leaf(lab[1], 2), c14_leaf(lab[2], 2), own[1], 1);
+    let root = c14_node::<f32>(fs[0], ss[0], c14_leaf(lab[0], 1), right, own[0], 0);
+    let p = make_prediction(&Array1::from(x.to_vec()), &root);
+    let leaf = if x[fs[0]] <= ss[0] { 0 } else if x[fs[1]] <= ss[1] { 1 } else { 2 };
+    assert!(p == lab[leaf]);
+    kani::cover!(leaf == 0 && lab[0] != lab[1] && lab[0] != lab[2] && x[fs[1]] > ss[1]);
+    kani::cover!(leaf == 1 && x[fs[1]] == ss[1] && lab[1] != lab[2]);
+    kani::cover!(leaf == 2 && lab[2] != lab[1] && lab[2] != lab[0]);
+}
+
 // ---- DecisionTree::predict: row by row, each row by its own values only ------------------------------
-// @unit class=bounded tier=thorough mem=heavy bound="rows=2, depth=1, 2 features, f32" timeout=1800 fns=linfa_trees::decision_trees::algorithm::DecisionTree::predict_inplace,linfa_trees::decision_trees::algorithm::make_prediction
+// @unit class=bounded tier=quick mem=heavy bound="rows=2, depth=1, 2 features, f32" timeout=900 fns=linfa_trees::decision_trees::algorithm::DecisionTree::predict_inplace,linfa_trees::decision_trees::algorithm::make_prediction
 #[kani::proof]
 #[kani::unwind(5)]
 #[kani::stub(alloc::fmt::format, fmt_stub)]
@@ -182,34 +204,5 @@ fn c14_node_accessors() {
     kani::cover!(a != b && own != a && d > 3);
 }
 
-// ---- tree-level observers on a depth-1 tree --------------------------------------------------------
-// iter_nodes "level-order (BFT)"; max_depth; num_leaves; "feature importances are non-negative and sum to one
-// whenever the tree has a split" (one split: the split feature has importance exactly 1, the other 0).
-// @unit class=bounded tier=thorough mem=heavy bound="depth=1 tree, 2 features, f32, impurity decrease a positive integer <= 8" timeout=1800 fns=linfa_trees::decision_trees::algorithm::DecisionTree::iter_nodes,linfa_trees::decision_trees::algorithm::DecisionTree::max_depth,linfa_trees::decision_trees::algorithm::DecisionTree::num_leaves,linfa_trees::decision_trees::algorithm::DecisionTree::feature_importance,linfa_trees::decision_trees::algorithm::DecisionTree::mean_impurity_decrease
-#[kani::proof]
-#[kani::unwind(6)]
-#[kani::stub(alloc::fmt::format, fmt_stub)]
-fn c14_tree_observers_depth1() {
-    let f = c14_feat();
-    let (a, b): (usize, usize) = (kani::any(), kani::any());
-    let di: u8 = kani::any();
-    kani::assume(di >= 1 && di <= 8);
-    let mut root = c14_node::<f32>(f, 0.5, c14_leaf(a, 1), c14_leaf(b, 1), 0, 0);
-    root.impurity_decrease = di as f32;
-    let tree = DecisionTree { root_node: root, num_features: 2 };
-    assert!(tree.root_node().split().0 == f);
-    assert!(tree.max_depth() == 1);
-    assert!(tree.num_leaves() == 2);
-    let mut it = tree.iter_nodes();
-    let n0 = it.next().unwrap();
-    let n1 = it.next().unwrap();
-    let n2 = it.next().unwrap();
-    assert!(it.next().is_none());
-    assert!(!n0.is_leaf() && n0.depth() == 0);
-    assert!(n1.prediction() == Some(a) && n2.prediction() == Some(b));  // level order, left before right
-    let imp = tree.feature_importance();
-    assert!(imp.len() == 2);
-    assert!(imp[f] == 1.0 && imp[1 - f] == 0.0);                        // non-negative, sums to one
-    kani::cover!(f == 1 && a != b);
-    kani::cover!(f == 0 && di > 1);
-}
+// Tree-level observers (iter_nodes / max_depth / num_leaves / feature_importance) walk a VecDeque queue: a depth-1 tree
+// did not finish in 30 min (measured) -- not decided, like everything else about fitted trees as a whole.
